@@ -182,17 +182,21 @@ def ancestors (c : Chain) : List Chain :=
   (List.range (c.length - 1)).reverse.map fun i => c.take (i + 1)
 
 /-- the `while self_current or other_current` loop of `has_common_repeat_parent`
-(survey_element.py 219-250) over the two ancestor walks; `true` = "Common Ancestor Repeat". -/
+(survey_element.py 219-250) over the two ancestor walks; `true` = "Common Ancestor Repeat".
+`hcrpRest`: the iterations after the self walk has reached the top. -/
+def hcrpRest : List Chain → List Chain → List Chain → Bool
+  | [], _, _ => false
+  | o :: os', seenS, seenO =>
+    if o.isRep && seenS.contains o then true else hcrpRest os' seenS (o :: seenO)
+
 def hcrpLoop : List Chain → List Chain → List Chain → List Chain → Bool
+  | [], os, seenS, seenO => hcrpRest os seenS seenO
   | s :: ss, os, seenS, seenO =>
     if s.isRep && seenO.contains s then true
     else match os with
       | o :: os' =>
         if o.isRep && (s :: seenS).contains o then true else hcrpLoop ss os' (s :: seenS) (o :: seenO)
       | [] => hcrpLoop ss [] (s :: seenS) seenO
-  | [], o :: os', seenS, seenO =>
-    if o.isRep && seenS.contains o then true else hcrpLoop [] os' seenS (o :: seenO)
-  | [], [], _, _ => false
 
 /-- `has_common_repeat_parent(...)[0] != "Unrelated"` (survey_element.py 204-253) -/
 def related (c t : Chain) : Bool :=
